@@ -165,10 +165,7 @@ func VerifH_C07_continuation() {
 // reader-side filter decoders on arbitrary chunk bytes
 func VerifH_C07_lzf_decompress() {
 	vrt.AllocBudget(1 << 20)
-	n := 5
-	if vrt.Thorough() {
-		n = 6
-	}
+	n := 5 // (6 and more: the solver gives up on the symbolic copy bounds of nested back references; same bound in both tiers)
 	data := verifBuf(n)
 	out, err := lzfDecompress(data)
 	if err == nil {
@@ -271,6 +268,24 @@ func VerifH_C07_file_globalheap() {
 	c, err := ReadGlobalHeapCollection(f, 0, sizes[vrt.Choice(2)])
 	if err == nil {
 		vrt.Assert(c != nil, "gheap-nil-without-error")
+	}
+	vrt.Covered("gheap-read")
+}
+
+// a collection of valid size (64 bytes, the whole image) whose object headers — id, reference count, 64-bit size —
+// are arbitrary: the object walk must stay inside the collection
+func VerifH_C07_file_globalheap_objects() {
+	vrt.AllocBudget(1 << 30)
+	vrt.StepBudget(3000000)
+	b := []byte{'G', 'C', 'O', 'L', 1, 0, 0, 0, 64, 0, 0, 0, 0, 0, 0, 0}
+	b = append(b, vrt.Bytes(48)...)
+	f := &verifFile{data: b}
+	c, err := ReadGlobalHeapCollection(f, 0, 8)
+	if err == nil {
+		vrt.Assert(c != nil, "gheap-nil-without-error")
+		for _, o := range c.Objects {
+			vrt.Assert(uint64(len(o.Data)) == o.Size, "gheap-object-size")
+		}
 	}
 	vrt.Covered("gheap-read")
 }
